@@ -1,6 +1,6 @@
 (* UdpProofs.v -- lemmas behind C15 (UDP-over-TCP datagram framing). *)
 From Coq Require Import List NArith ZArith Lia Bool.
-From AnyTLS Require Import Bytes Reader ReaderProg Generated GeneratedFacts Dest Udp BytesFacts ReaderProofs DestProofs.
+From AnyTLS Require Import Bytes Reader ReaderProg Generated FactsCore FactsParsers Dest Udp BytesFacts ReaderProofs DestProofs.
 Import ListNotations.
 Open Scope N_scope.
 Ltac Zify.zify_post_hook ::= Z.to_euclidean_division_equations.
